@@ -71,6 +71,10 @@ STRENGTHENED = {
  'C12_8': 'inconclusive at first (the loop body cut out of `_van_der_corput` no longer exists after the vectorisation) -> concrete supplement: last points of the sequence for sample counts around every power of the first seven prime bases',
  'C19_8': 'missed at first (training set empty at the start) -> training set seeded with 1, 3 (2, 5) samples before the requests',
  'C20_8': 'inconclusive at first (`math.isclose` of proxies) -> math shim in artap.individual',
+ 'C02_9': 'missed at first (every sort got a fresh list object) -> the same list object is sorted, changed in place (one member replaced) and sorted again',
+ 'C05_9': 'missed at first (one sweep per generator) -> a second sweep driven by the same generator object',
+ 'C06_9': 'missed at first (plain TimeoutError / RuntimeError injected) -> every second injected failure is an instance of a subclass',
+ 'C15_9': 'inconclusive at first (`x.index(c)` on proxies forks on every equality; exploration exceeded its budget) -> concrete supplement: sample points with tied coordinates, with the bound clause',
  'C20_4': 'inconclusive at first (`hash(point)` inside the library hit the int-only builtin) -> shim calls the real `__hash__`; the real CPython collision hash(-1.0) == hash(-2.0) as model-selection hint so that the counterexample replays',
 }
 print('| seed | change (abridged) | needs | verdict of the check(s) on the patched tree | note |')
